@@ -295,9 +295,9 @@ def nontrivial(c):
 
 def plan(tier):
     jobs = [{"part": "tables"}]
-    n = 12 if tier == "quick" else 48
+    n = 12 if tier == "quick" else 64
     for _ in range(n):
-        jobs.append({"part": "gen", "examples": 300 if tier == "quick" else 3000})
+        jobs.append({"part": "gen", "examples": 300 if tier == "quick" else 12000})
     return jobs
 
 
